@@ -18,6 +18,7 @@ TName(i) == CASE i = 0 -> "t0" [] i = 1 -> "t1" [] i = 2 -> "t2" [] i = 3 -> "t3
 Kinds == {"absent", "text", "empty", "textparent", "parent", "parent2", "parentexpr"}
 \* "nest" (block b1 of a child only): the override contains a definition of b2, which also calls parent()
 BaseKinds == {"text", "empty"}
+ExtKinds == {"absent", "text", "textparent", "parent"}
 Layouts == {"top", "nested", "loop", "if", "iffalse", "incl"}
 
 \* marker of (level, block): a capital letter per level, digit per block
@@ -25,6 +26,7 @@ Marker(lvl, b) == <<65 + lvl, IF b = "b1" THEN 49 ELSE 50>>
 Body(lvl, b, kind) ==
     CASE kind = "text" -> <<Text(Marker(lvl, b)), PrintS(Var("i"))>>
       [] kind = "empty" -> <<>>
+      [] kind = "vars0" -> <<Text(Marker(lvl, b)), PrintS(Var("gv")), PrintS(Cond(Test(Var("nv"), "defined", <<>>, FALSE), LS(<<100>>), LS(<<117>>)))>>
       [] kind = "textparent" -> <<Text(Marker(lvl, b)), Text(<<40>>), PrintS(Call("parent", <<>>)), Text(<<41>>), PrintS(Var("i"))>>
       [] kind = "parent" -> <<PrintS(Call("parent", <<>>))>>
       [] kind = "parent2" -> <<PrintS(Call("parent", <<>>)), Text(<<124>>), PrintS(Call("parent", <<>>))>>
@@ -33,6 +35,8 @@ Body(lvl, b, kind) ==
                                   Set("pp", Call("parent", <<>>)), Text(<<61>>), PrintS(Var("pp")), PrintS(Filt("length", Call("parent", <<>>), <<>>))>>
       [] kind = "nest" -> <<Text(Marker(lvl, b)), Text(<<40>>), PrintS(Call("parent", <<>>)), Text(<<41, 60>>),
                             Block("b2", <<Text(Marker(lvl, "b2")), Text(<<40>>), PrintS(Call("parent", <<>>)), Text(<<41>>)>>), Text(<<62>>)>>
+      \* a variable of the render context that an engine global also names, and one whose value is null
+      [] kind = "vars" -> <<Text(Marker(lvl, b)), PrintS(Var("gv")), PrintS(Cond(Test(Var("nv"), "defined", <<>>, FALSE), LS(<<100>>), LS(<<117>>))), PrintS(Call("parent", <<>>))>>
 BlockOf(lvl, b, kind) == Block(b, Body(lvl, b, kind))
 
 \* base layout (level k)
@@ -58,6 +62,19 @@ ChildBody(lvl, k1, k2, dyn) ==
     \o (IF k1 = "absent" THEN <<>> ELSE <<BlockOf(lvl, "b1", k1)>>)
     \o <<Text(<<32, 120, 32>>)>>
     \o (IF k2 = "absent" THEN <<>> ELSE <<BlockOf(lvl, "b2", k2)>>)
+\* the extends tag after other top-level definitions of the child
+ExtPlaces == {"afterblock", "aftermacro", "afterset", "afterimport", "last", "afterboth"}
+ChildBodyExt(lvl, k1, k2, ext) ==
+    LET x == <<Extends(LS(NT[TName(lvl + 1)]))>>
+        b1 == IF k1 = "absent" THEN <<>> ELSE <<BlockOf(lvl, "b1", k1)>>
+        b2 == IF k2 = "absent" THEN <<>> ELSE <<BlockOf(lvl, "b2", k2)>>
+        junk == <<Text(<<106, 117, 110, 107>>)>> IN
+    CASE ext = "afterblock"  -> b1 \o x \o junk \o b2
+      [] ext = "afterboth"   -> b2 \o b1 \o x \o junk
+      [] ext = "last"        -> b1 \o b2 \o x
+      [] ext = "aftermacro"  -> <<Macro("zz", <<>>, <<Text(<<122>>)>>)>> \o x \o junk \o b1 \o b2
+      [] ext = "afterset"    -> <<Set("zq", LI(1))>> \o x \o b1 \o junk \o b2
+      [] ext = "afterimport" -> <<Import(LS(NT.n2), "L")>> \o x \o b1 \o b2 \o junk
 
 \* a chain description: kinds[l] = <<k1, k2>> for child levels 0..n-1, base kinds, layout, dyn
 ChildKindsFull == (Kinds \X Kinds) \cup {<<"nest", "absent">>}
@@ -70,17 +87,24 @@ Chains ==
               : ch \in [1..n -> ChildKindsOne], bk \in {<<"text", "text">>, <<"empty", "text">>}, lay \in Layouts, dyn \in {FALSE}}
             : n \in (MaxFull + 1)..MaxOne }
     \cup { [n |-> 1, ch |-> <<<<k1, "absent">>>>, bk |-> <<"text", "text">>, lay |-> "top", dyn |-> TRUE] : k1 \in Kinds }
+    \* the extends tag of the most derived template in another place; engine globals that name a context variable
+    \cup UNION { {[n |-> n, ch |-> ch, bk |-> <<"text", "text">>, lay |-> lay, dyn |-> FALSE, ext |-> ext]
+                    : ch \in [1..n -> ExtKinds \X ExtKinds], lay \in {"top", "nested"}, ext \in ExtPlaces} : n \in 1..2 }
+    \cup UNION { {[n |-> n, ch |-> ch, bk |-> bk, lay |-> lay, dyn |-> FALSE, glob |-> TRUE]
+                    : ch \in [1..n -> {"vars", "text", "absent"} \X {"vars", "absent"}], bk \in {<<"vars0", "text">>, <<"text", "vars0">>}, lay \in {"top", "nested", "if"}} : n \in 0..2 }
 
 IncTp == ("n1" :> <<Extends(LS(NT.n2)), Block("b1", <<Text(<<85>>), PrintS(Call("parent", <<>>))>>)>>)
          @@ ("n2" :> <<Text(<<91>>), Block("b1", <<Text(<<86>>)>>), Block("b2", <<Text(<<87>>)>>), Text(<<93>>)>>)
 Tp(c) == [name \in {TName(i) : i \in 0..c.n} |->
             LET i == CHOOSE j \in 0..c.n : TName(j) = name IN
             IF i = c.n THEN BaseBody(c.n, c.lay, c.bk[1], c.bk[2])
+            ELSE IF i = 0 /\ "ext" \in DOMAIN c THEN ChildBodyExt(i, c.ch[i + 1][1], c.ch[i + 1][2], c.ext)
             ELSE ChildBody(i, c.ch[i + 1][1], c.ch[i + 1][2], c.dyn /\ i = 0)]
-         @@ (IF c.lay = "incl" THEN IncTp ELSE EmptyFn)
+         @@ (IF c.lay = "incl" \/ "ext" \in DOMAIN c THEN IncTp ELSE EmptyFn)
 
-Ctx(c) == IF c.dyn THEN ("pv" :> VS(NT.t1)) ELSE EmptyFn
-World(c) == MkW(Tp(c), {}, {}, NoFault)
+Globals(c) == IF "glob" \in DOMAIN c THEN ("gv" :> VS(<<71>>)) @@ ("go" :> VI(1)) ELSE EmptyFn
+Ctx(c) == IF c.dyn THEN ("pv" :> VS(NT.t1)) ELSE IF "glob" \in DOMAIN c THEN ("gv" :> VS(<<99>>)) @@ ("nv" :> Null) ELSE EmptyFn
+World(c) == WithGlobals(MkW(Tp(c), {}, {}, NoFault), Globals(c))
 Ref(c) == Render(World(c), "t0", Ctx(c))
 
 KindTags(c) == UNION {{"b1:" \o c.ch[i][1], "b2:" \o c.ch[i][2]} : i \in 1..c.n}
@@ -88,8 +112,8 @@ CaseOf(c) ==
     LET ref == Ref(c) IN
     [prop |-> "C10", key |-> ToJson(c),
      tags |-> {"lay:" \o c.lay, "chain:" \o ToString(c.n), "base1:" \o c.bk[1], "base2:" \o c.bk[2]} \cup KindTags(c)
-              \cup (IF c.dyn THEN {"dynparent"} ELSE {}),
-     entry |-> "t0", ctx |-> Ctx(c),
+              \cup (IF c.dyn THEN {"dynparent"} ELSE {}) \cup (IF "ext" \in DOMAIN c THEN {"ext:" \o c.ext} ELSE {}) \cup (IF "glob" \in DOMAIN c THEN {"globals"} ELSE {}),
+     entry |-> "t0", ctx |-> Ctx(c), cfg |-> [globals |-> Globals(c)],
      runs |-> {[label |-> "render", tp |-> Sources(Tp(c), LMin), xcalls |-> [id \in {} |-> 0]]},
      expect |-> [ok |-> ref.ok, out |-> ref.out, err |-> ref.err, calls |-> [id \in {} |-> 0]]]
 
